@@ -12,6 +12,8 @@ use vkit::*;
 
 const K: f64 = 1024.0;
 
+mod reg;
+
 #[derive(Clone, Copy, Debug)]
 enum Step<S> {
     Translate2([S; 2]),
@@ -429,6 +431,28 @@ pub fn property() -> Property {
     let x = "Mat4::from(Transform) maps p to position + orientation*(scale . p) (reference quaternion action), both layouts; Transform::default is the identity map";
     tape!("transform-rat", x, 48, 30_000, 600_000, transform::<Rat>);
     tape!("transform-f64", x, 96, 20_000, 400_000, transform::<f64>);
+    tape!("constructors-f32", k, 192, 4_000, 200_000, constructors::<f32>);
+    tape!("transform-f32", x, 96, 4_000, 200_000, transform::<f32>);
+    // regimes (src/reg.rs)
+    let h = "point / direction helpers in every generic form (Mat4::mul_point / mul_direction with V = Vec2, Vec3, Vec4; Mat3::mul_point_2d / mul_direction_2d with V = Vec2, Vec3, Vec4; Vec4::from_point / from_direction / new_*, Vec3::*_2d) on structured matrices (general, affine, perspective-like bottom rows, sparse, vek's frustum_* / perspective_*), all lengths scaled exactly by 2^k; oracle row . vector with w = 1 / w = 0, every returned coordinate including w / z, tolerance 16 eps * sum of |terms|; both layouts";
+    tape!("helpers-forms-rat", h, 224, 8_000, 400_000, reg::helpers::<Rat>);
+    tape!("helpers-forms-f64", h, 320, 8_000, 400_000, reg::helpers::<f64>);
+    tape!("helpers-forms-f32", h, 320, 8_000, 400_000, reg::helpers::<f32>);
+    let f = "every Into<Vec3> / Into<Vec2> argument form (Vec2, Vec3, Vec4, array, tuple, broadcast scalar, (Vec2, T), Extent, Rgb) of translation/scaling constructors (entries by definition for the converted vector), their *_ed builders and in-place twins (= the Vec3 / Vec2 call, exactly), and of the rotation_3d / rotated_3d / rotate_3d axis (floats); Mat2/3/4, both layouts";
+    tape!("arg-forms-rat", f, 224, 1_500, 100_000, reg::forms::<Rat>);
+    tape!("arg-forms-f64", f, 320, 3_000, 150_000, reg::forms::<f64>);
+    let s = "one builder step (translated_2d/3d, scaled_3d/2d, rotated_x/y/z/3d, sheared_x/y and the in-place twins) from an arbitrary (also projective) start matrix with parameters from the regimes: small angle, next to a multiple of pi/2, many turns, axis of length 2^j, translation 2^-e of the unit, unit of length 2^k, scale factor 1 +- 2^-e and +-2^j, shear 2^-e; entry-wise value = definition-matrix * start with tolerance 16 (32 for a general axis) eps * sum of |terms|; Mat2/3/4, both layouts";
+    tape!("step-regimes-f64", s, 320, 16_000, 800_000, reg::step_regimes::<f64>);
+    tape!("step-regimes-f32", s, 320, 16_000, 800_000, reg::step_regimes::<f32>);
+    let o = "harness self-check: the exact-entry rotation matrices used by step-regimes agree with the axis-angle formula";
+    tape!("oracle-selfcheck-f64", o, 32, 1_000, 50_000, reg::oracle_selfcheck::<f64>);
+    tape!("oracle-selfcheck-f32", o, 32, 1_000, 50_000, reg::oracle_selfcheck::<f32>);
+    let e = "translation / scaling / shearing constructors place their arguments exactly (all other entries 0 / 1) for finite IEEE specials, +-2^j up to the limits of the normal range, tiny and ordinary values; Mat2/3/4, both layouts";
+    tape!("ctor-entries-f64", e, 64, 2_000, 100_000, reg::ctor_entries::<f64>);
+    tape!("ctor-entries-f32", e, 64, 2_000, 100_000, reg::ctor_entries::<f32>);
+    let r = "Mat4::from(Transform) maps p to position + orientation*(scale . p) with the orientation from the angle regimes (small down to 2^-40 / 2^-14, next to multiples of pi/2, many turns, identity, negated quaternion), scale factors 1 +- 2^-e / +-2^j / ordinary, positions and points in units of 2^k or 2^-e of the unit; oracle: quaternion action in f64; tolerance 16 eps * (|position_i| + sum |scale_j p_j|); both layouts";
+    tape!("transform-regimes-f64", r, 128, 16_000, 800_000, reg::transform_regimes::<f64>);
+    tape!("transform-regimes-f32", r, 128, 16_000, 800_000, reg::transform_regimes::<f32>);
     Property {
         id: "C07",
         rule: "builder chains of 0-8 generated steps (arguments: small rationals / floats, registered angles, Pythagorean axes) starting from the identity or a random matrix; Transform with rational unit quaternion, mostly non-uniform scale; non-trivial = chain with >= 2 different kinds of step / non-uniform scale with a non-axis-aligned rotation / all parameters non-zero and pairwise different scales; distinct = distinct consumed tape prefix",
